@@ -6,7 +6,8 @@
    chain it has been told about (ghost), and the log of all events sent.
    [sreach w0 w] / [creach w0 w] = w is reached from w0 by calls that satisfy
    the environment obligations [svalid] / [cvalid]: client height hints not
-   above the actual spend/confirmation height, truthful rescan answers (no
+   above the actual spend/confirmation height, rescan answers truthful whenever the notifier still
+   lacks the details (outdated answers arriving later are unconstrained; no
    condition on registered clients since the repair af6371e), ConnectTip followed by
    NotifyHeight before the next connect/disconnect, a txid confirmed (an
    outpoint spent) at most once on the chain, reorgs within reorgSafetyLimit of
@@ -182,3 +183,30 @@ Theorem C14_spend_zero_client_details_cleared :
     sset (sw_st w) = Some s /\ ss_det s = None /\ spos (sw_chain w) = None /\
     slstate 2 (sw_log w) = Some None /\ shint (sw_st w) = Some 3.
 Proof. exact spend_zero_client_details_cleared. Qed.
+
+(* An OUTDATED historical-rescan answer (here: "not found", then a block that
+   is not on the chain) delivered after the tx / spend was found at tip and a
+   further block was connected is admitted by the environment obligations
+   ([cvalid]/[svalid] only constrain answers the notifier still needs) and is
+   ignored: state and event log unchanged, the persisted hint stays at the
+   confirmation / spend height 2.  (C14_conf_hint_safe / C14_spend_hint_safe
+   cover this race in general; these are the concrete regression runs.) *)
+Theorem C14_conf_stale_rescan_ignored :
+  exists w1 w,
+    cstart_ok pr_chain 1 144 None /\
+    cvrun (cinit pr_chain 1 144 None) st_cops w1 /\
+    cvrun w1 st_cops2 w /\ creach (cinit pr_chain 1 144 None) w /\
+    cw_st w = cw_st w1 /\ cw_log w = cw_log w1 /\
+    hint (cw_st w) = Some 2 /\ cpos (cw_chain w) = Some (2, 12) /\
+    clstate 1 (cw_log w) = Some (Some (2, 12)).
+Proof. exact conf_stale_rescan_ignored. Qed.
+
+Theorem C14_spend_stale_rescan_ignored :
+  exists w1 w,
+    sstart_ok st_schain 1 144 None /\
+    svrun (sinit st_schain 1 144 None) st_sops w1 /\
+    svrun w1 st_sops2 w /\ sreach (sinit st_schain 1 144 None) w /\
+    sw_st w = sw_st w1 /\ sw_log w = sw_log w1 /\
+    shint (sw_st w) = Some 2 /\ spos (sw_chain w) = Some (2, 0) /\
+    slstate 1 (sw_log w) = Some (Some (2, 0)).
+Proof. exact spend_stale_rescan_ignored. Qed.
